@@ -1103,6 +1103,47 @@ class Audit:
                 return False
         return False
 
+    def _sub_after_add(self, B, s, m, k):
+        """`x += c; .. x - k` with c >= k: walking back from the subtraction along single predecessors, the first assignment
+        to the local x is the result of a checked `x + c`"""
+        pl = m["a"].get("pl") if isinstance(m.get("a"), dict) else None
+        if not pl or pl["p"] or not isinstance(k, int) or k < 0:
+            return False
+        x = pl["l"]
+        preds = B.preds()
+        cur, steps = s.bb, 0
+        upto = None
+        # the operand is usually a temporary holding a copy of the variable: `_t = copy x` in the block of the check
+        ds0 = B.defs().get(x, [])
+        if B.local_name(x) is None and len(ds0) == 1 and ds0[0][1] != "term" and ds0[0][2]["rv"]["k"] == "use" and \
+                ds0[0][2]["rv"]["a"].get("pl") and not ds0[0][2]["rv"]["a"]["pl"]["p"] and ds0[0][0] == s.bb:
+            upto = ds0[0][1]
+            x = ds0[0][2]["rv"]["a"]["pl"]["l"]
+        while steps < 10:
+            blk = B.blocks[cur]
+            stmts_ = blk["stmts"] if (upto is None or cur != s.bb) else blk["stmts"][:upto]
+            for st in reversed(stmts_):
+                if st["k"] == "assign" and not st["lhs"]["p"] and st["lhs"]["l"] == x:
+                    rv = st["rv"]
+                    if rv["k"] == "use" and rv["a"].get("pl") and rv["a"]["pl"]["p"] and isinstance(rv["a"]["pl"]["p"][0], dict) and rv["a"]["pl"]["p"][0].get("f") == 0:
+                        t_ = rv["a"]["pl"]["l"]
+                        ds = B.defs().get(t_, [])
+                        if len(ds) == 1 and ds[0][1] != "term":
+                            r2 = ds[0][2]["rv"]
+                            if r2["k"] == "bin" and r2["op"] == "AddWithOverflow" and r2["a"].get("pl") and not r2["a"]["pl"]["p"] and r2["a"]["pl"]["l"] == x \
+                                    and r2["b"].get("k") == "const" and isinstance(r2["b"].get("val"), int) and r2["b"]["val"] >= k:
+                                return True
+                    return False
+            ps = [p for p in preds[cur] if not B.blocks[p].get("cleanup")]
+            if len(ps) != 1:
+                return False
+            cur = ps[0]
+            tt = B.blocks[cur]["term"]
+            if tt["k"] == "call" and not tt["dest"]["p"] and tt["dest"]["l"] == x:
+                return False
+            steps += 1
+        return False
+
     def _inc_dominates(self, s):
         B = self.body(s.fn)
         t = B.blocks[s.bb]["term"]
@@ -1314,6 +1355,8 @@ class Audit:
                     return "sub: " + r
                 if cx.lin(b).is_const() and cx.lin(b).k == 1 and self._len_after_push(B, s, m):
                     return "sub: v.len() - 1 where the length was taken right after v.push(..) with nothing in between"
+                if cx.lin(b).is_const() and self._sub_after_add(B, s, m, cx.lin(b).k):
+                    return "sub: x - k right after the checked x += c with c >= k (straight line, x not assigned in between)"
                 return None
             if op in ("Shl", "Shr"):
                 lb = cx.lin(b)
